@@ -91,6 +91,13 @@ def run(tier, seed):
         "a poll of the real stream is explained as one of fill / pop+drain+fill / pop+drain (Model/FutureQueue.v header)",
         "threads-required >= 1 and limits >= 1 for the bound clause (validated by nextest's config parser)",
     ]
+    # end-to-end stage: generated multi-test runs of the real cargo-nextest over the scripted puppet
+    # workspace, judged by this property's oracle (lib/e2e_general.py)
+    try:
+        import e2e_general
+        e2e_general.stage(chk, PROP, tier, seed)
+    except RuntimeError as ex:
+        chk.violation("broken-obligation", "e2e-build", dict(error=str(ex)[-3000:]), no_input=True)
     return chk.finish(
         gate, "make -C coq Properties/C14.vo && coqc gen/assump_C14.v (Print Assumptions)",
         ["Coq 8.16.1 kernel + vm_compute",
